@@ -99,20 +99,35 @@ impl BroadcastReceiver {
 
             let mut record_offset: Index = cursor as Index & self.mask;
 
-            self.cursor = cursor;
-            self.next_record = cursor
-                + align(
-                    self.buffer.get::<i32>(record_descriptor::length_offset(record_offset)) as Index,
-                    record_descriptor::RECORD_ALIGNMENT,
-                ) as i64;
+            // Read the header words, validate, and only then use them. Using them first (as this code did, following
+            // Agrona) computes cursor and next_record from overwritten bytes when the transmitter laps the receiver
+            // between the validation above and these reads.
+            let length = self.buffer.get::<i32>(record_descriptor::length_offset(record_offset));
+            let is_padding =
+                AeronCommand::Padding as i32 == self.buffer.get::<i32>(record_descriptor::type_offset(record_offset));
+            let length_after_padding = if is_padding {
+                self.buffer.get::<i32>(record_descriptor::length_offset(0))
+            } else {
+                0
+            };
 
-            if AeronCommand::Padding as i32 == self.buffer.get::<i32>(record_descriptor::type_offset(record_offset)) {
-                record_offset = 0;
-                self.cursor = self.next_record;
-                self.next_record += align(
-                    self.buffer.get::<i32>(record_descriptor::length_offset(record_offset)) as Index,
-                    record_descriptor::RECORD_ALIGNMENT,
-                ) as i64;
+            if self.do_validate(cursor) {
+                self.cursor = cursor;
+                self.next_record = cursor + align(length as Index, record_descriptor::RECORD_ALIGNMENT) as i64;
+
+                if is_padding {
+                    record_offset = 0;
+                    self.cursor = self.next_record;
+                    self.next_record += align(length_after_padding as Index, record_descriptor::RECORD_ALIGNMENT) as i64;
+                }
+            } else {
+                // Lapped while reading: nothing that was read can be trusted. Count the lap (the caller sees the
+                // lapped count change and delivers nothing) and restart at the latest record.
+                let _ignored = self.lapped_count.fetch_add(1, Ordering::SeqCst);
+                let latest = self.buffer.get::<i64>(self.latest_counter_index);
+                self.cursor = latest;
+                self.next_record = latest;
+                record_offset = latest as Index & self.mask;
             }
 
             self.record_offset = record_offset;
